@@ -1045,6 +1045,16 @@ func init() {
 						return a[0]
 					}
 				}
+				// any other remainder of wide operands: an uninterpreted function with the two facts that matter
+				// (below the modulus; the identity on values below the modulus) - a bvurem of this width never
+				// comes back from the solver
+				if !(x.IsConst() && y.IsConst()) {
+					r := mkUF("bigmod", BV(bigW), x, y)
+					st.addPC(mkOr(mkEq(y, mkBV(bigW, 0)), mkCmp(OpUlt, r, y)))
+					st.addPC(mkOr(mkNot(mkCmp(OpUlt, x, y)), mkEq(r, x)))
+					ex.setBig(st, a[0].(*Ptr), r)
+					return a[0]
+				}
 			}
 			ex.setBig(st, a[0].(*Ptr), mkBin(op, x, y))
 			return a[0]
